@@ -4,12 +4,14 @@
    Model/SparseOps.v describing the NumPy result, the kind of result expected, what the
    implementation returned under the address-space and time limits).  The expression is evaluated
    by vm_compute on the STORED ENTRIES only (shapes up to 10^18 logical elements); every operand and
-   every intermediate is checked with [wfb] (the hypothesis of the den-theorems), so each step of
-   the oracle is an instance of a proved theorem.  The implementation's result is compared through
-   [same_denb] (proved sound: equal dense meaning everywhere) plus the canonical-form check of
-   Corr/SArr.v; GCXS results are additionally compared array by array with [rows_of_coo]. *)
+   every intermediate is checked with [wfsb] (the hypotheses of the den-theorems), so each step of
+   the oracle is an instance of a proved theorem.  The reference result is brought to canonical form
+   ([canon]: verified merge sort + pruning, Props.C16.canon_den) and its RAW coords/data are compared
+   with what the implementation returned ([coo_eqb]; Props.C16.canon_eq_sound: equal canonical forms
+   have equal dense meaning everywhere), plus the canonical-form check of Corr/SArr.v; GCXS results of
+   conversions are additionally compared array by array with [rows_of_coo]. *)
 From Coq Require Import String ZArith List Bool.
-From Verif Require Import Py Shape COO GCXS Judge SArr PySlice S_dense_sites SparseOps.
+From Verif Require Import Py Shape COO GCXS Judge SArr PySlice S_dense_sites SparseOps SparseOpsP.
 Import ListNotations.
 Open Scope Z_scope.
 
@@ -71,7 +73,8 @@ Fixpoint norm_sels (sh : shape) (ps : list psel) : option (list asel) :=
   end.
 
 Definition guard (b : bool) (r : option (coo Z)) : option (coo Z) := if b then r else None.
-Definition checked (x : coo Z) : option (coo Z) := if wfb x then Some x else None.
+(* wfsb: the hypotheses of the den-theorems (Proofs/SparseOpsP.v wfsb_spec), checked in O(n log n) *)
+Definition checked (x : coo Z) : option (coo Z) := if wfsb x then Some x else None.
 
 Definition bcast_okb (sha shc : shape) : bool :=
   (length shc <=? length sha)%nat
@@ -222,9 +225,9 @@ Definition judge_c16 (c : c16_case) : Z :=
       match impl_coo out with
       | None => 2
       | Some r =>
-        if negb (impl_wfb out) then 3
+        if negb (impl_wfb out && wfsb r) then 3
         else if negb (zl_eqb (c_shape r) (c_shape m) && (c_fill r =? c_fill m)) then 4
-        else if negb (same_denb r m) then 5
+        else if negb (coo_eqb (canon r) (canon m)) then 5
         else match rk, out with
              | RGcxs mask, SGcxs g =>
                  if negb (list_eqb Bool.eqb mask (mask_of_caxes (length (g_shape g)) (g_caxes g))) then 7
